@@ -63,6 +63,9 @@ static size_t forge(uint8_t *out, int what, int64_t arg, const uint8_t ver[2])
 		out[5] = TLS_handshake_certificate_request; out[6] = 0; out[7] = 0; out[8] = 4;
 		out[9] = 1; out[10] = (arg & 1) ? 1 : 64; out[11] = 0; out[12] = 0;
 		return 13;
+	case 10: /* empty application-data record */
+		out[0] = TLS_record_application_data; out[1] = ver[0]; out[2] = ver[1]; out[3] = 0; out[4] = 0;
+		return 5;
 	case 9: /* HelloRequest (type 0, empty body) nobody sent */
 		out[0] = TLS_record_handshake; out[1] = ver[0]; out[2] = ver[1]; out[3] = 0; out[4] = 4;
 		out[5] = 0; out[6] = 0; out[7] = 0; out[8] = 0;
@@ -264,6 +267,20 @@ static void mitm_on_record(Conn *c, int dir, int idx, const uint8_t *rec_in, siz
 			break; }
 		case F_MUT:
 			if (g_mitm_byz) g_mitm_byz(c, dir, idx, f, &g_frt[i], rec, &len, sizeof(rec));
+			else if (rec[0] == TLS_record_handshake) {
+				/* an EC point (x, y) in a plaintext handshake message becomes (x, p - y): still on the curve, same x —
+				 * whatever is derived from x alone is unchanged, only a transcript or a signature can notice */
+				for (size_t k = 5; k + 66 <= len; k++) {
+					if (rec[k] != 65 || rec[k + 1] != 4) continue;
+					sm2_z256_t y, ny; SM2_Z256_POINT pt;
+					if (sm2_z256_point_from_bytes(&pt, rec + k + 2) != 1) continue;       /* not a point: some other 0x41 0x04 */
+					sm2_z256_from_bytes(y, rec + k + 2 + 32);
+					sm2_z256_sub(ny, sm2_z256_prime(), y);
+					sm2_z256_to_bytes(ny, rec + k + 2 + 32);
+					fire(i, c, dir);
+					break;
+				}
+			}
 			break;
 		default: break;
 		}
@@ -378,7 +395,7 @@ static void gen_fault_hs(Fault *f, Rng *g, const HonestOut *o)
 	int n = collect(o, 1, 0, c, 2 * MAX_REC);
 	memset(f, 0, sizeof(*f));
 	if (!n) return;
-	static const int w[F_NKINDS] = { 0, 58, 8, 8, 6, 3, 6, 3, 5, 0, 0, 3 };    /* indexed by fault kind */
+	static const int w[F_NKINDS] = { 0, 58, 8, 8, 6, 3, 6, 3, 5, 3, 0, 3 };    /* indexed by fault kind */
 	int kind = pick_weighted(g, w, F_NKINDS);
 	Cand *t = &c[rng_below(g, (uint32_t)n)];
 	f->kind = kind; f->dir = t->dir; f->rec = t->rec;
@@ -406,7 +423,7 @@ static void gen_fault_hs(Fault *f, Rng *g, const HonestOut *o)
 		break;
 	case F_INJECT:
 		if (rng_chance(g, 1, 8)) f->rec = -1;
-		f->a = rng_below(g, 10);
+		f->a = rng_below(g, 11);
 		f->b = (int64_t)(rng_u64(g) >> 40);
 		if (f->a == 0) f->b = (int64_t[]){ 0, 10, 20, 40, 47, 80 }[rng_below(g, 6)];
 		break;
@@ -581,7 +598,7 @@ static void gen_fault_data(Fault *f, Rng *g, const HonestOut *o, int proto)
 		int region = (int)rng_below(g, 8);
 		size_t off;
 		switch (region) {
-		case 0: off = rng_below(g, 5); break;                                   /* header */
+		case 0: off = rng_chance(g, 1, 2) ? 0 : rng_below(g, 5); break;          /* header, half of them the content type */
 		case 1: off = 5 + rng_below(g, 16); break;                              /* explicit IV / first block */
 		case 2: off = len - 1; break;                                           /* last byte (padding length / tag) */
 		case 3: off = len - 1 - rng_below(g, len > 48 ? 48 : (uint32_t)len - 5); break;  /* MAC / padding / tag region */
@@ -591,6 +608,7 @@ static void gen_fault_data(Fault *f, Rng *g, const HonestOut *o, int proto)
 		if (off >= len) off = len - 1;
 		f->off = (int64_t)off;
 		f->bit = rng_below(g, 8);
+		if (off == 0 && rng_chance(g, 1, 2)) f->bit = rng_below(g, 2);             /* 23 -> 22 (handshake) / 21 (alert) */
 		(void)proto;
 		break; }
 	case F_SWAP:
@@ -630,6 +648,23 @@ static void gen_fault_data(Fault *f, Rng *g, const HonestOut *o, int proto)
 			if (!o->recs[f->dir][i].in_hs) idxs[cnt++] = i;
 		f->a = f->dir;
 		f->b = cnt ? idxs[rng_below(g, (uint32_t)cnt)] : f->rec;
+		if (rng_chance(g, 1, 4)) {
+			/* reflection: a record the receiver itself sent comes back to it, the one that carries the sequence
+			 * number it expects next from its peer (same count of protected records in the other direction).
+			 * Any target after which such a record exists will do. */
+			int start = (int)rng_below(g, (uint32_t)n), found = 0;
+			for (int t2 = 0; t2 < n && !found; t2++) {
+				const Cand *tt = &c[(start + t2) % n];
+				int od = 1 - tt->dir, k = 0, cn = 0;
+				for (int i = 0; i <= tt->rec && i < o->nrecs[tt->dir]; i++) if (!o->recs[tt->dir][i].in_hs) cn++;
+				for (int i = 0; i < o->nrecs[od]; i++) {
+					if (o->recs[od][i].in_hs || o->recs[od][i].type != TLS_record_application_data) continue;
+					if (k == cn && o->recs[od][i].step <= o->recs[tt->dir][tt->rec].step) { f->dir = tt->dir; f->rec = tt->rec; f->a = od; f->b = i; found = 1; break; }
+					k++;
+				}
+			}
+			if (found) break;
+		}
 		if (cnt > 257 && rng_chance(g, 1, 2)) {
 			/* long-lived direction: replay the record sent exactly 256 (512, ...) records before the one the receiver
 			 * expects next — equal in every byte of the sequence number but the ones above the lowest */
